@@ -155,6 +155,12 @@ fn cmd_packet(args: &[String]) -> i32 {
                 stats.push(json!({"id":format!("ck-{i}"),"cell":"ck","shape":format!("{i}"),"delivered":{"genuine":1}}));
             }
         }
+        "ext" => {
+            let (ev, panics) = packetdrv::run_ext(seed, n, &mut f);
+            for i in 0..n {
+                stats.push(json!({"id":format!("ext-{i}"),"cell":format!("{}", i % 30),"shape":format!("{i}"),"delivered":{"genuine":1},"events":ev,"panicked":panics>0}));
+            }
+        }
         "paris" | "paris_all" => {
             let ev = packetdrv::run_paris(seed, family == "paris_all", &mut f);
             for i in 0..(ev.saturating_sub(1)).min(5000) {
